@@ -398,6 +398,92 @@ func runC06(w *World, r *Report) {
 			}
 		}
 		r.Check(used, "C06.checkpoint-iff-interrupt", w.fname(h)+" checks set error", sets[0].Pos(), "error of checkPointer.set is tested", "error of checkPointer.set is dropped")
+		// "exactly when": on the arm where set FAILED nothing derived from an interruptError is returned (not even
+		// wrapped inside another error: ExtractInterruptInfo uses errors.As)
+		leak := ""
+		instrs(h, func(in ssa.Instruction) {
+			ret, ok := in.(*ssa.Return)
+			if !ok || in.Block() == h.Recover {
+				return
+			}
+			onFail := hasGuard(ret.Block(), func(g guard) bool {
+				return guardNonNil(g, func(v ssa.Value) bool { return v == ev })
+			})
+			if !onFail {
+				return
+			}
+			// any interruptError allocation reaching the returned value
+			instrs(h, func(ai ssa.Instruction) {
+				al, ok := ai.(*ssa.Alloc)
+				if !ok || namedOf(al.Type()) != ie {
+					return
+				}
+				if derivesFrom(returnedValue(ret, 0), al) {
+					leak = w.pos(ret.Pos())
+				}
+			})
+		})
+		r.Check(leak == "", "C06.checkpoint-iff-interrupt", w.fname(h)+": a failed checkpoint write returns no interrupt", sets[0].Pos(), "the set-failure arm returns an error that carries no interruptError", "when writing the checkpoint fails the returned error still carries an *interruptError (return at "+leak+"): ExtractInterruptInfo succeeds although nothing is stored under the id — the caller 'resumes' into a fresh run")
+	}
+	// late finishers: after the interrupt point was hit, a task that asked for a rerun is classified again — every
+	// way from a resolveInterruptCompletedTasks call to the continuation (next tasks / simple interrupt) consults
+	// the rerun list that call may have extended
+	{
+		ric := w.Fn("compose", "runner.resolveInterruptCompletedTasks")
+		cnt := w.Fn("compose", "runner.calculateNextTasks")
+		n := 0
+		for _, c := range callsTo(run, ric) {
+			n++
+			// 3rd argument (index 2 after the receiver): &interruptRerunNodes
+			var cell ssa.Value
+			for _, a := range c.Common().Args {
+				if al, ok := a.(*ssa.Alloc); ok {
+					if sl, ok := deref(al.Type()).Underlying().(*types.Slice); ok {
+						if b, ok := sl.Elem().Underlying().(*types.Basic); ok && b.Kind() == types.String && cell == nil {
+							cell = al
+						}
+					}
+				}
+			}
+			if cell == nil {
+				r.Fail("C06.after-gate", fmt.Sprintf("runner.run: rerun list consulted after resolveInterruptCompletedTasks #%d", n), c.Pos(), "the rerun list argument of the call is not a local variable")
+				continue
+			}
+			consults := func(in ssa.Instruction) bool {
+				iff, ok := in.(*ssa.If)
+				if !ok {
+					return false
+				}
+				found := false
+				var walk func(v ssa.Value, d int)
+				walk = func(v ssa.Value, d int) {
+					if d > 6 || found {
+						return
+					}
+					switch x := v.(type) {
+					case *ssa.BinOp:
+						walk(x.X, d+1)
+						walk(x.Y, d+1)
+					case *ssa.Call:
+						if isBuiltin(x, "len") {
+							if u, ok := x.Call.Args[0].(*ssa.UnOp); ok && u.X == cell {
+								found = true
+							}
+						}
+					}
+				}
+				walk(iff.Cond, 0)
+				return found
+			}
+			skip, wit := pathQuery{fn: run, from: c, goal: func(in ssa.Instruction) bool {
+				return isCallTo(in, cnt) || isCallTo(in, hInt)
+			}, avoid: consults}.exists()
+			r.Check(!skip, "C06.after-gate", fmt.Sprintf("runner.run: rerun list consulted after resolveInterruptCompletedTasks #%d", n), c.Pos(), "no continuation without a test of len(interruptRerunNodes)",
+				"after late finishers were classified the run can continue (next tasks / simple interrupt) without looking at the rerun list: a node that asked for a rerun while the run was already stopping is treated as completed with a nil output, is missing from RerunNodes and is never re-run ("+wit+")")
+		}
+		if n < 2 {
+			undecidedf("C06.after-gate: %d calls of resolveInterruptCompletedTasks in run (floor 2)", n)
+		}
 	}
 
 	// ---- handler-args: mode flags reach the interrupt handlers (and every callee of run) unswapped
@@ -508,43 +594,7 @@ func runC06(w *World, r *Report) {
 
 	// ---- sentinel-match
 	r.Rule("C06.sentinel-match", "InterruptAndRerun is matched with errors.Is (never ==) wherever the framework classifies a task error", 2)
-	sent := w.GlobalVar("compose", "InterruptAndRerun")
-	isSentLoad := func(v ssa.Value) bool {
-		v = through(v)
-		u, ok := v.(*ssa.UnOp)
-		if !ok {
-			return false
-		}
-		g, ok := u.X.(*ssa.Global)
-		return ok && g.Object() == types.Object(sent)
-	}
-	nIs := 0
-	for _, fn := range w.RepoFuncs("compose", "flow") {
-		instrs(fn, func(in ssa.Instruction) {
-			if b, ok := in.(*ssa.BinOp); ok && (b.Op == token.EQL || b.Op == token.NEQ) && (isSentLoad(b.X) || isSentLoad(b.Y)) {
-				r.Fail("C06.sentinel-match", w.fname(fn)+" compares InterruptAndRerun with "+b.Op.String(), b.Pos(), "identity comparison misses a wrapped sentinel (e.g. a tool error wrapped by ToolsNode with %w): the run fails instead of interrupting")
-			}
-			if calleeFullName(in) == "errors.Is" {
-				a := in.(ssa.CallInstruction).Common().Args
-				if isSentLoad(a[1]) {
-					nIs++
-					r.OK("C06.sentinel-match", w.fname(fn)+" errors.Is(err, InterruptAndRerun)", in.Pos(), "unwrapping match")
-				}
-			}
-		})
-	}
-	// both classifiers must use it
-	for _, f := range []*ssa.Function{resolve, isInt} {
-		has := false
-		for _, c := range callsNamed(f, "errors.Is") {
-			if isSentLoad(c.Common().Args[1]) {
-				has = true
-			}
-		}
-		if !has {
-			r.Fail("C06.sentinel-match", w.fname(f)+" classifies InterruptAndRerun", f.Pos(), "no errors.Is(err, InterruptAndRerun) in this classifier")
-		}
-	}
+	sentinelMatchChecks(w, r, "C06.sentinel-match")
 	_ = strings.Join
 }
 
@@ -564,4 +614,47 @@ func aliasesBack(v ssa.Value) []ssa.Value {
 		out = append(out, phi.Edges...)
 	}
 	return out
+}
+
+// sentinelMatchChecks: a node's request to be interrupted and re-run is recognised through any wrapping.
+func sentinelMatchChecks(w *World, r *Report, rule string) {
+	resolve := w.Fn("compose", "runner.resolveInterruptCompletedTasks")
+	isInt := w.Fn("compose", "isInterruptError")
+	sent := w.GlobalVar("compose", "InterruptAndRerun")
+	isSentLoad := func(v ssa.Value) bool {
+		v = through(v)
+		u, ok := v.(*ssa.UnOp)
+		if !ok {
+			return false
+		}
+		g, ok := u.X.(*ssa.Global)
+		return ok && g.Object() == types.Object(sent)
+	}
+	nIs := 0
+	for _, fn := range w.RepoFuncs("compose", "flow") {
+		instrs(fn, func(in ssa.Instruction) {
+			if b, ok := in.(*ssa.BinOp); ok && (b.Op == token.EQL || b.Op == token.NEQ) && (isSentLoad(b.X) || isSentLoad(b.Y)) {
+				r.Fail(rule, w.fname(fn)+" compares InterruptAndRerun with "+b.Op.String(), b.Pos(), "identity comparison misses a wrapped sentinel (e.g. a tool error wrapped by ToolsNode with %w): the run fails instead of interrupting")
+			}
+			if calleeFullName(in) == "errors.Is" {
+				a := in.(ssa.CallInstruction).Common().Args
+				if isSentLoad(a[1]) {
+					nIs++
+					r.OK(rule, w.fname(fn)+" errors.Is(err, InterruptAndRerun)", in.Pos(), "unwrapping match")
+				}
+			}
+		})
+	}
+	// both classifiers must use it
+	for _, f := range []*ssa.Function{resolve, isInt} {
+		has := false
+		for _, c := range callsNamed(f, "errors.Is") {
+			if isSentLoad(c.Common().Args[1]) {
+				has = true
+			}
+		}
+		if !has {
+			r.Fail(rule, w.fname(f)+" classifies InterruptAndRerun", f.Pos(), "no errors.Is(err, InterruptAndRerun) in this classifier")
+		}
+	}
 }
